@@ -402,6 +402,14 @@ def perms_tla(n):
     return "{" + ", ".join("<<" + ", ".join(map(str, p)) + ">>" for p in itertools.permutations(range(1, n + 1))) + "}"
 
 
+def orders_tla(n):
+    """sensor-name orders: every permutation up to 3 sensors; for 4 the identity, the reversal, a rotation and a transposition
+    (24 x 24 x forms x faults x sheets made TLC's single-threaded initial-state generation run for more than 20 minutes)"""
+    if n <= 3:
+        return perms_tla(n)
+    return "{<<1, 2, 3, 4>>, <<4, 3, 2, 1>>, <<2, 3, 4, 1>>, <<1, 3, 2, 4>>}"
+
+
 def subsets_tla(items, which):
     return "{" + ", ".join("{" + ", ".join(f'"{x}"' for x in s) + "}" for s in which) + "}"
 
@@ -426,12 +434,12 @@ def run(ctx):
             "{[n |-> %d, form |-> f, order |-> o, rowperm |-> rp, fault |-> ft, opt |-> op, lines |-> %s, lays |-> <<>>, allnames |-> %s, "
             "argform |-> \"frame\"] : "
             "f \\in {\"row\", \"list\", \"array\"}, o \\in %s, rp \\in %s, ft \\in {\"none\"} \\cup Faults1, op \\in %s}"
-            % (n, lines, allnames, perms_tla(n), perms_tla(n), subsets_tla(OPT1, opts if n >= 2 else [[], ["BG nodes"]])))
+            % (n, lines, allnames, orders_tla(n), perms_tla(n), subsets_tla(OPT1, opts if n >= 2 else [[], ["BG nodes"]])))
         # documented array forms of the direction table and of the optional tables (def_geo1 only)
         sets.append(
             "{[n |-> %d, form |-> f, order |-> o, rowperm |-> rp, fault |-> \"none\", opt |-> op, lines |-> %s, lays |-> <<>>, allnames |-> %s, "
             "argform |-> \"array\"] : f \\in {\"list\", \"array\"}, o \\in %s, rp \\in %s, op \\in %s}"
-            % (n, lines, allnames, perms_tla(n), perms_tla(n), subsets_tla(OPT1, opts if n >= 2 else [[], ["BG nodes"]])))
+            % (n, lines, allnames, orders_tla(n), perms_tla(n), subsets_tla(OPT1, opts if n >= 2 else [[], ["BG nodes"]])))
     consts = {"Kind": "geo1", "TableSets": Raw("UNION {" + ", ".join(sets) + "}"), "Faults1": set(FAULTS1), "Faults2": set(FAULTS2)}
     mod, cfg = ctx.model("Geo", "geo1", consts, invariants=["RejectIffMalformed", "OptionalSheetsOptional", "ZeroBased", "RowKIsSensorK"],
                          action_constraints=["Emit"], view="View")
